@@ -412,3 +412,38 @@ def unroll_literal_loops(fn, limit=8):
         if hasattr(fn, a_):
             setattr(new, a_, getattr(fn, a_))
     return new, count[0]
+
+
+def single_adds(fn):
+    """Every place where ONE element is put into a collection, whichever way
+    it is spelt: ``c.append(x)`` / ``c.add(x)``, ``c.extend([x])`` /
+    ``c.update((x,))`` / ``c.update({x})`` with a one-element display,
+    ``c += [x]`` / ``c |= {x}``.  Returns [(receiver expression, element
+    expression, the call / statement)]."""
+    out = []
+
+    def one(e):
+        if isinstance(e, (ast.List, ast.Tuple, ast.Set)) and \
+                len(e.elts) == 1 and not isinstance(e.elts[0], ast.Starred):
+            return e.elts[0]
+        return None
+    for n in ast.walk(fn):
+        if isinstance(n, ast.Call) and isinstance(n.func, ast.Attribute) and \
+                not n.keywords and len(n.args) == 1:
+            if n.func.attr in ("append", "add"):
+                out.append((n.func.value, n.args[0], n))
+            elif n.func.attr in ("extend", "update") and \
+                    one(n.args[0]) is not None:
+                out.append((n.func.value, one(n.args[0]), n))
+            elif n.func.attr in ("extend", "update") and isinstance(
+                    n.args[0], (ast.GeneratorExp, ast.ListComp,
+                                ast.SetComp)):
+                # c.extend(f(x) for x in xs): each f(x) is added (terms of
+                # the element need the comprehension's bindings)
+                out.append((n.func.value, n.args[0].elt, n))
+        elif isinstance(n, ast.AugAssign) and isinstance(
+                n.op, (ast.Add, ast.BitOr)) and one(n.value) is not None and \
+                isinstance(n.value, ast.Set if isinstance(n.op, ast.BitOr)
+                           else ast.List):
+            out.append((n.target, one(n.value), n))
+    return out
